@@ -105,12 +105,14 @@ theorem relS_mono {Δ : Decls} {tn : String → String} {ok ok' : String → Pro
       · exact ⟨hr2.1, hr2.2.1, hr2.2.2.1, relProps_mono h props _ hr2.2.2.2⟩
       · rename_i m
         refine ⟨hr2.1, ?_⟩
-        have h3 := hr2.2
-        cases m
-        · simp only [Bool.false_eq_true, if_false] at h3 ⊢
-          exact ⟨h3.1, h3.2.1, relO_mono h items _ h3.2.2⟩
-        · simp only [if_true] at h3 ⊢
-          exact ⟨h3.1, h3.2.1, relO_mono h addl _ h3.2.2⟩
+        rcases hr2.2 with h3 | h3
+        · exact Or.inl h3
+        · right
+          cases m
+          · simp only [Bool.false_eq_true, if_false] at h3 ⊢
+            exact ⟨h3.1, h3.2.1, relO_mono h items _ h3.2.2⟩
+          · simp only [if_true] at h3 ⊢
+            exact ⟨h3.1, h3.2.1, relO_mono h addl _ h3.2.2⟩
 theorem relO_mono {Δ : Decls} {tn : String → String} {ok ok' : String → Prop} (h : ∀ n, ok n → ok' n) :
     ∀ (x : Option Sch) (t : GoType), RelO Δ tn ok t x → RelO Δ tn ok' t x
   | none, _, _ => by simp [RelO]
@@ -166,15 +168,17 @@ theorem relS_refNames {Δ : Decls} {tn : String → String} {ok : String → Pro
         exact relProps_refNames props _ h3 r hm
       case recs m =>
         obtain ⟨rfl, h3⟩ := hr2
-        cases m
-        · simp only [Bool.false_eq_true, if_false] at h3
-          obtain ⟨_, rfl, h4⟩ := h3
-          simp only [refNamesP, refNamesO, List.not_mem_nil, or_false] at hm
-          exact relO_refNames items _ h4 r hm
-        · simp only [if_true] at h3
-          obtain ⟨_, rfl, h4⟩ := h3
-          simp only [refNamesP, refNamesO, List.not_mem_nil, false_or] at hm
-          exact relO_refNames addl _ h4 r hm
+        rcases h3 with ⟨_, rfl, rfl⟩ | h3
+        · simp [refNamesP, refNamesO] at hm
+        · cases m
+          · simp only [Bool.false_eq_true, if_false] at h3
+            obtain ⟨_, rfl, h4⟩ := h3
+            simp only [refNamesP, refNamesO, List.not_mem_nil, or_false] at hm
+            exact relO_refNames items _ h4 r hm
+          · simp only [if_true] at h3
+            obtain ⟨_, rfl, h4⟩ := h3
+            simp only [refNamesP, refNamesO, List.not_mem_nil, false_or] at hm
+            exact relO_refNames addl _ h4 r hm
       all_goals (simp_all [refNamesP, refNamesO])
 theorem relO_refNames {Δ : Decls} {tn : String → String} {ok : String → Prop} :
     ∀ (x : Option Sch) (t : GoType), RelO Δ tn ok t x → ∀ r, r ∈ refNamesO x → ok r
@@ -200,23 +204,18 @@ def isCycSch : Sch → Bool
   | .ref _ => true
   | .node _ _ _ _ _ _ _ _ cyc => cyc
 
-theorem cycleSch_isCyc (o : Opts) : ∀ (e : GoType) (s : Sch), cycleSch o e = some s → isCycSch s = true
-  | .ptr t, s, h => by simp only [cycleSch] at h; exact cycleSch_isCyc o t s h
-  | .slice t, s, h => by
-      simp only [cycleSch, Option.map_eq_some_iff] at h
-      obtain ⟨r, _, rfl⟩ := h; simp [arrWrap, isCycSch]
-  | .map t, s, h => by
-      simp only [cycleSch, Option.map_eq_some_iff] at h
-      obtain ⟨r, _, rfl⟩ := h; simp [mapWrap, isCycSch]
-  | .defd n t, s, h => by
-      simp only [cycleSch] at h
-      split at h
-      · exact cycleSch_isCyc o t s h
-      · cases h; simp [isCycSch]
-  | .recs _, s, h => by simp [cycleSch] at h
-  | .bytes, s, h => by simp only [cycleSch, Option.some.injEq] at h; subst h; simp [arrWrap, isCycSch]
-  | .bool, s, h | .int _, s, h | .float _, s, h | .string, s, h | .time, s, h | .named _, s, h | .struct _, s, h
-  | .array _ _, s, h => by simp only [cycleSch, Option.some.injEq] at h; subst h; simp [isCycSch]
+theorem cycleSch_isCyc (o : Opts) : ∀ (e : GoType), isCycSch (cycleSch o e) = true
+  | .ptr t => by simp only [cycleSch]; exact cycleSch_isCyc o t
+  | .slice t => by simp [cycleSch, arrWrap, isCycSch]
+  | .map t => by simp [cycleSch, mapWrap, isCycSch]
+  | .defd n t => by
+      simp only [cycleSch]
+      split
+      · exact cycleSch_isCyc o t
+      · simp [isCycSch]
+  | .recs m => by cases m <;> simp [cycleSch, arrWrap, mapWrap, isCycSch]
+  | .bytes => by simp [cycleSch, arrWrap, isCycSch]
+  | .bool | .int _ | .float _ | .string | .time | .named _ | .struct _ | .array _ _ => by simp [cycleSch, isCycSch]
 
 theorem relS_ptr_of_cyc {Δ tn ok t} : ∀ {s : Sch}, RelS Δ tn ok t s → isCycSch s = true → RelS Δ tn ok (.ptr t) s
   | .ref n, h, _ => by simpa [RelS, stripPtr] using h
@@ -248,38 +247,66 @@ theorem relS_defd {Δ tn ok t n} (hp : isPtr t = false) : ∀ {s : Sch}, RelS Δ
       refine relS_node_congr (by intro hh; simp [isPtr] at hh) ?_ h
       rw [stripPtr_of_not_ptr hp]; simp [stripPtr, under]
 
-theorem cycleSch_rel {Δ : Decls} {o : Opts} {ok : String → Prop} : ∀ (e : GoType) (s : Sch), cycleSch o e = some s →
-    spineNamed e = true → ok (cycleName o e) → RelS Δ (typeName o) ok e s
-  | .ptr t, s, hc, hs, hk => by
-      simp only [cycleSch] at hc
-      exact relS_ptr_of_cyc (cycleSch_rel t s hc (by simpa [spineNamed] using hs) (by simpa [cycleName] using hk))
-        (cycleSch_isCyc o t s hc)
-  | .slice t, s, hc, hs, hk => by
-      simp only [cycleSch, Option.map_eq_some_iff] at hc
-      obtain ⟨r, hc, rfl⟩ := hc
+theorem spineRecs_not_u8 : ∀ (t : GoType), spineRecs t = true → isU8 t = false
+  | .defd _ t, h => by
+      simp only [spineRecs, Bool.and_eq_true] at h
+      simp only [isU8]; exact spineRecs_not_u8 t h.2
+  | .int k, h => by simp [spineRecs] at h
+  | .bool, _ | .float _, _ | .string, _ | .bytes, _ | .time, _ | .slice _, _ | .map _, _ | .struct _, _ | .named _, _
+  | .ptr _, _ | .array _ _, _ | .recs _, _ => by simp [isU8]
+
+theorem cycleSch_rel {Δ : Decls} {o : Opts} {ok : String → Prop} : ∀ (e : GoType),
+    spineNamed e = true → ok (cycleName o e) → RelS Δ (typeName o) ok e (cycleSch o e)
+  | .ptr t, hs, hk => by
+      simp only [cycleSch]
+      exact relS_ptr_of_cyc (cycleSch_rel t (by simpa [spineNamed] using hs) (by simpa [cycleName] using hk))
+        (cycleSch_isCyc o t)
+  | .slice t, hs, hk => by
       simp only [spineNamed] at hs
       have h8 := spineNamed_not_u8 t hs
-      simp only [arrWrap, RelS, stripPtr, isPtr, under, h8, Bool.false_eq_true, if_false]
-      exact ⟨by simp, trivial, trivial, trivial, by simpa [RelO] using cycleSch_rel t r hc hs (by simpa [cycleName] using hk)⟩
-  | .map t, s, hc, hs, hk => by
-      simp only [cycleSch, Option.map_eq_some_iff] at hc
-      obtain ⟨r, hc, rfl⟩ := hc
+      simp only [cycleSch, arrWrap, RelS, stripPtr, isPtr, under, h8, Bool.false_eq_true, if_false]
+      exact ⟨by simp, trivial, trivial, trivial, by simpa [RelO] using cycleSch_rel t hs (by simpa [cycleName] using hk)⟩
+  | .map t, hs, hk => by
       simp only [spineNamed] at hs
-      simp only [mapWrap, RelS, stripPtr, isPtr, under]
-      exact ⟨by simp, trivial, trivial, trivial, by simpa [RelO] using cycleSch_rel t r hc hs (by simpa [cycleName] using hk)⟩
-  | .named n, s, hc, _, hk => by
-      simp only [cycleSch, goName, Option.some.injEq] at hc
-      subst hc
-      simp only [RelS, stripPtr, under]
+      simp only [cycleSch, mapWrap, RelS, stripPtr, isPtr, under]
+      exact ⟨by simp, trivial, trivial, trivial, by simpa [RelO] using cycleSch_rel t hs (by simpa [cycleName] using hk)⟩
+  | .named n, _, hk => by
+      simp only [cycleSch, goName, RelS, stripPtr, under]
       exact ⟨n, rfl, rfl, by simpa [cycleName, goName] using hk⟩
-  | .defd n t, s, hc, hs, hk => by
+  | .defd n t, hs, hk => by
       simp only [spineNamed, Bool.and_eq_true] at hs
-      simp only [cycleSch, hs.1, if_true] at hc
+      simp only [cycleSch, hs.1, if_true]
       simp only [cycleName, hs.1, if_true] at hk
-      exact relS_defd (kindContainer_not_ptr hs.1) (cycleSch_rel t s hc hs.2 hk)
-  | .bool, _, _, hs, _ | .int _, _, _, hs, _ | .float _, _, _, hs, _ | .string, _, _, hs, _ | .bytes, _, _, hs, _ | .time, _, _, hs, _
-  | .struct _, _, _, hs, _ | .array _ _, _, _, hs, _ | .recs _, _, _, hs, _ => by
+      exact relS_defd (kindContainer_not_ptr hs.1) (cycleSch_rel t hs.2 hk)
+  | .bool, hs, _ | .int _, hs, _ | .float _, hs, _ | .string, hs, _ | .bytes, hs, _ | .time, hs, _
+  | .struct _, hs, _ | .array _ _, hs, _ | .recs _, hs, _ => by
       simp [spineNamed] at hs
+
+/-- the cycle schema of a spine that ends in a self-recursive container: wrappers around the unconstrained schema;
+    it refers to no component -/
+theorem cycleSch_rel_recs {Δ : Decls} {o : Opts} {ok : String → Prop} : ∀ (e : GoType),
+    spineRecs e = true → RelS Δ (typeName o) ok e (cycleSch o e)
+  | .ptr t, hs => by
+      simp only [cycleSch]
+      exact relS_ptr_of_cyc (cycleSch_rel_recs t (by simpa [spineRecs] using hs)) (cycleSch_isCyc o t)
+  | .slice t, hs => by
+      simp only [spineRecs] at hs
+      have h8 : isU8 t = false := spineRecs_not_u8 t hs
+      simp only [cycleSch, arrWrap, RelS, stripPtr, isPtr, under, h8, Bool.false_eq_true, if_false]
+      exact ⟨by simp, trivial, trivial, trivial, by simpa [RelO] using cycleSch_rel_recs t hs⟩
+  | .map t, hs => by
+      simp only [spineRecs] at hs
+      simp only [cycleSch, mapWrap, RelS, stripPtr, isPtr, under]
+      exact ⟨by simp, trivial, trivial, trivial, by simpa [RelO] using cycleSch_rel_recs t hs⟩
+  | .defd n t, hs => by
+      simp only [spineRecs, Bool.and_eq_true] at hs
+      simp only [cycleSch, hs.1, if_true]
+      exact relS_defd (kindContainer_not_ptr hs.1) (cycleSch_rel_recs t hs.2)
+  | .recs m, _ => by
+      cases m <;> simp [cycleSch, arrWrap, mapWrap, emptySch, RelS, stripPtr, isPtr, under, RelO]
+  | .bool, hs | .int _, hs | .float _, hs | .string, hs | .bytes, hs | .time, hs
+  | .struct _, hs | .array _ _, hs | .named _, hs => by
+      simp [spineRecs] at hs
 
 /-! ### field list bookkeeping -/
 theorem mem_insertCand {c x : Cand} : ∀ {l : List Cand}, x ∈ insertCand c l → x = c ∨ x ∈ l
@@ -357,12 +384,12 @@ theorem childOf_mono (o : Opts) (e : GoType) (p : R × St) : Mono p.2 (childOf o
   | nofuel => exact Mono.refl _
   | excluded => exact Mono.refl _
   | err => exact Mono.refl _
-  | diverge => exact Mono.refl _
   | cycle =>
     simp only [childOf]
     split
     · exact Mono.refl _
     · split
+      · exact note_mono _ _
       · simp only [note]
         refine ⟨fun n h => mem_addComp_of_mem h, ?_⟩
         intro h
@@ -370,7 +397,6 @@ theorem childOf_mono (o : Opts) (e : GoType) (p : R × St) : Mono p.2 (childOf o
         cases ha : σ.anon with
         | false => rfl
         | true => simp [ha] at h
-      · exact Mono.refl _
 
 theorem finish_mono (t : GoType) (p : R × St) : Mono p.2 (finish t p).2 := by
   obtain ⟨r, σ⟩ := p
@@ -565,17 +591,18 @@ theorem childOf_good {Δ : Decls} {o : Opts} {e : GoType} {p : R × St} (h : Goo
   | nofuel => exact ⟨h.1, fun s hs => by simp [childOf] at hs⟩
   | excluded => exact ⟨h.1, fun s hs => by simp [childOf] at hs⟩
   | err => exact ⟨h.1, fun s hs => by simp [childOf] at hs⟩
-  | diverge => exact ⟨h.1, fun s hs => by simp [childOf] at hs⟩
   | cycle =>
     by_cases hthrow : o.throwCycle = true
     · simp only [childOf, hthrow, if_true]
       exact ⟨h.1, fun s hs => by cases hs⟩
-    · cases hc : cycleSch o e with
-      | none =>
-        simp only [childOf, hthrow, hc, if_false]
-        exact ⟨h.1, fun s hs => by cases hs⟩
-      | some s0 =>
-        simp only [childOf, hthrow, hc, if_false, note] at ha ⊢
+    · by_cases hrec : spineRecs e = true
+      · simp only [childOf, hthrow, hrec, if_true, if_false]
+        refine ⟨inv_note h.1, ?_⟩
+        intro s hs
+        have hs' : cycleSch o e = s := by simpa using hs
+        subst hs'
+        exact cycleSch_rel_recs e hrec
+      · simp only [childOf, hthrow, hrec, if_false, note] at ha ⊢
         have hsp : spineNamed e = true := by
           simp only [addComp] at ha
           cases hs : spineNamed e with
@@ -584,9 +611,9 @@ theorem childOf_good {Δ : Decls} {o : Opts} {e : GoType} {p : R × St} (h : Goo
         refine ⟨?_, ?_⟩
         · exact inv_transport (σ := σ) rfl rfl (fun n hn => mem_addComp_of_mem hn) h.1
         · intro s hs
-          have hs' : s0 = s := by simpa using hs
+          have hs' : cycleSch o e = s := by simpa using hs
           subst hs'
-          exact cycleSch_rel e s0 hc hsp (mem_addComp_self _ _)
+          exact cycleSch_rel e hsp (mem_addComp_self _ _)
 
 theorem sliceOf_good {Δ : Decls} {o : Opts} {e : GoType} {nl : Bool} {q : Child × St} (h8 : isU8 e = false)
     (hi : Inv Δ o q.2) (hr : ∀ it, q.1 = .some it → RelS Δ (typeName o) (okσ q.2) e it) :
@@ -630,21 +657,35 @@ theorem recsOf_good {Δ : Decls} {o : Opts} {m : Bool} {nl : Bool} {q : Child ×
     (hi : Inv Δ o q.2) (hr : ∀ it, q.1 = .some it → RelS Δ (typeName o) (okσ q.2) (.recs m) it) :
     GoodB Δ o (.recs m) nl ((if m = true then mapOf nl else sliceOf nl) q) := by
   obtain ⟨c, σ⟩ := q
-  cases m <;> cases c <;> simp only [Bool.false_eq_true, if_false, if_true]
-  all_goals first
-    | exact ⟨hi, fun s hs => absurd hs (Fail.toR_ne_ok _ s)⟩
-    | (refine ⟨hi, fun s hs => ?_⟩
-       first
-        | (simp only [sliceOf, R.ok.injEq] at hs; subst hs
-           simp only [RelN, RelS, stripPtr, isPtr, under, Bool.false_eq_true, if_false, RelO]
-           first
-            | exact ⟨fun h => Or.inl h, by simp, trivial, trivial, trivial, hr _ rfl⟩
-            | exact ⟨fun h => Or.inl h, by simp, trivial, trivial, trivial, trivial⟩)
-        | (simp only [mapOf, R.ok.injEq] at hs; subst hs
-           simp only [RelN, RelS, stripPtr, isPtr, under, if_true, RelO]
-           first
-            | exact ⟨fun h => Or.inl h, by simp, trivial, trivial, trivial, hr _ rfl⟩
-            | exact ⟨fun h => Or.inl h, by simp, trivial, trivial, trivial, trivial⟩))
+  cases m with
+  | false =>
+    simp only [Bool.false_eq_true, if_false]
+    cases c with
+    | fail x => exact ⟨hi, fun s hs => absurd hs (Fail.toR_ne_ok _ s)⟩
+    | some it =>
+      refine ⟨hi, fun s hs => ?_⟩
+      simp only [sliceOf, R.ok.injEq] at hs; subst hs
+      simp only [RelN, RelS, stripPtr, isPtr, under, Bool.false_eq_true, if_false, RelO]
+      exact ⟨fun h => Or.inl h, by simp, trivial, Or.inr ⟨trivial, trivial, hr it rfl⟩⟩
+    | skip =>
+      refine ⟨hi, fun s hs => ?_⟩
+      simp only [sliceOf, R.ok.injEq] at hs; subst hs
+      simp only [RelN, RelS, stripPtr, isPtr, under, Bool.false_eq_true, if_false, RelO]
+      exact ⟨fun h => Or.inl h, by simp, trivial, Or.inr ⟨trivial, trivial, trivial⟩⟩
+  | true =>
+    simp only [if_true]
+    cases c with
+    | fail x => exact ⟨hi, fun s hs => absurd hs (Fail.toR_ne_ok _ s)⟩
+    | some it =>
+      refine ⟨hi, fun s hs => ?_⟩
+      simp only [mapOf, R.ok.injEq] at hs; subst hs
+      simp only [RelN, RelS, stripPtr, isPtr, under, if_true, RelO]
+      exact ⟨fun h => Or.inl h, by simp, trivial, Or.inr ⟨trivial, trivial, hr it rfl⟩⟩
+    | skip =>
+      refine ⟨hi, fun s hs => ?_⟩
+      simp only [mapOf, R.ok.injEq] at hs; subst hs
+      simp only [RelN, RelS, stripPtr, isPtr, under, if_true, RelO]
+      exact ⟨fun h => Or.inl h, by simp, trivial, Or.inr ⟨trivial, trivial, trivial⟩⟩
 
 theorem stepField_σ (o : Opts) (c : Cand) (a : FAcc) (r : R × St) : (stepField o c a r).σ = (childOf o c.ty r).2 := by
   unfold stepField
@@ -786,7 +827,6 @@ theorem finish_good {Δ : Decls} {o : Opts} {t : GoType} {ps : List GoType} {q :
   | nofuel => exact ⟨hb.1.2, fun _ => hb.1, fun s hs => by cases hs⟩
   | excluded => exact ⟨hb.1.2, fun _ => hb.1, fun s hs => by cases hs⟩
   | err => exact ⟨hb.1.2, fun _ => hb.1, fun s hs => by cases hs⟩
-  | diverge => exact ⟨hb.1.2, fun _ => hb.1, fun s hs => by cases hs⟩
 
 theorem structSch_rel_struct {Δ tn ok fs nl props} (h : RelProps Δ tn ok (flat fs) props) :
     RelS Δ tn ok (.struct fs) (structSch nl props) := by
